@@ -16,7 +16,7 @@ def _literals(fn):
     return out
 
 
-def mined_sizes(prog, files, lo=64, hi=8192):
+def mined_sizes(prog, files, lo=16, hi=8192):
     """constants in (lo, hi] used by functions defined in `files` (suffix match), directly or through a named const item"""
     out, named = set(), set()
     for f in prog.fns:
